@@ -183,3 +183,40 @@ impl Decode for TrackedZst {
 	}
 }
 impl DecodeWithMemTracking for TrackedZst {}
+
+// model view: an instrumented element is a one-byte struct (its control byte / tag)
+impl crate::bridge::Modelled for Tracked {
+	fn ty() -> crate::model::Ty {
+		crate::model::Ty::Struct { name: "Tracked".into(), fields: vec![crate::model::FieldTy::plain(crate::model::Ty::u(1))] }
+	}
+	fn to_val(&self) -> crate::model::Val {
+		crate::model::Val::Tuple(vec![crate::model::Val::Int(self.tag as u128)])
+	}
+	fn from_val(v: &crate::model::Val) -> Self {
+		match v {
+			crate::model::Val::Tuple(xs) => match &xs[0] {
+				crate::model::Val::Int(t) => Tracked::new(*t as u8),
+				_ => panic!("Tracked::from_val"),
+			},
+			_ => panic!("Tracked::from_val"),
+		}
+	}
+}
+
+impl Encode for TrackedZst {
+	fn encode_to<W: parity_scale_codec::Output + ?Sized>(&self, dest: &mut W) {
+		dest.push_byte(0);
+	}
+}
+
+impl crate::bridge::Modelled for TrackedZst {
+	fn ty() -> crate::model::Ty {
+		crate::model::Ty::Struct { name: "Tracked".into(), fields: vec![crate::model::FieldTy::plain(crate::model::Ty::u(1))] }
+	}
+	fn to_val(&self) -> crate::model::Val {
+		crate::model::Val::Tuple(vec![crate::model::Val::Int(0)])
+	}
+	fn from_val(_: &crate::model::Val) -> Self {
+		TrackedZst::new()
+	}
+}
